@@ -9,6 +9,7 @@ import (
 	"go/token"
 	"go/types"
 	"math"
+	"sort"
 	"strings"
 
 	"golang.org/x/tools/go/ssa"
@@ -33,38 +34,43 @@ type AssertFail struct {
 	Msg   string
 	Cond  *Term // negation is satisfiable with pc
 	Model Model
+	Obs   []Observation
 }
 
 type Exec struct {
-	eng       *Engine
-	h         *HarnessRun
-	pc        []*Term
-	decisions []int
-	dpos      int
-	trace     []int
-	inputs    []InputRec
-	nsym      int
-	steps     int
-	depth     int
-	model     Model // satisfies pc (when non-nil)
-	solver    *Solver
-	covers    map[string]bool
-	observes  []Observation
-	fails     []AssertFail
-	asserts   int // obligations reached
-	discharged int
+	eng          *Engine
+	h            *HarnessRun
+	pc           []*Term
+	decisions    []int
+	dpos         int
+	trace        []int
+	inputs       []InputRec
+	nsym         int
+	steps        int
+	depth        int
+	model        Model // satisfies pc (when non-nil)
+	solver       *Solver
+	covers       map[string]bool
+	observes     []Observation
+	fails        []AssertFail
+	asserts      int // obligations reached
+	discharged   int
 	inconclusive int
-	mapFree   bool
-	funcsSeen map[*ssa.Function]bool
-	stubsHit  map[string]bool
-	calllog   []string
-	knownHit  map[string]bool
-	panicking *goPanic
-	recovered bool
-	stack     []*ssa.Function
-	lastPos   token.Pos
-	queries   int
-	initPkg   *ssa.Package
+	mapFree      bool
+	funcsSeen    map[*ssa.Function]bool
+	stubsHit     map[string]bool
+	calllog      []string
+	knownHit     map[string]bool
+	panicking    *goPanic
+	recovered    bool
+	stack        []*ssa.Function
+	lastPos      token.Pos
+	queries      int
+	tweaks       int
+	initPkg      *ssa.Package
+	canonMemo    map[*Term]*Term
+	canonTab     map[canonKey]*Term
+	lits         map[*Term]bool
 }
 
 type deferred struct {
@@ -88,11 +94,94 @@ func (x *Exec) fresh(prefix string, s Sort) *Term {
 // ---------------------------------------------------------------------------
 // decisions
 
+type canonKey struct {
+	op         Op
+	s          Sort
+	aux        int
+	a0, a1, a2 *Term
+	val        uint64
+	name       string
+}
+
+// canon returns a structurally unique representative of t within this path
+func (x *Exec) canon(t *Term) *Term {
+	if x.canonMemo == nil {
+		x.canonMemo = map[*Term]*Term{}
+		x.canonTab = map[canonKey]*Term{}
+		x.lits = map[*Term]bool{}
+	}
+	if r, ok := x.canonMemo[t]; ok {
+		return r
+	}
+	k := canonKey{op: t.Op, s: t.S, aux: t.Aux, val: t.Val, name: t.Name}
+	if len(t.Args) > 3 {
+		x.canonMemo[t] = t
+		return t
+	}
+	for i, a := range t.Args {
+		c := x.canon(a)
+		switch i {
+		case 0:
+			k.a0 = c
+		case 1:
+			k.a1 = c
+		default:
+			k.a2 = c
+		}
+	}
+	r, ok := x.canonTab[k]
+	if !ok {
+		r = t
+		x.canonTab[k] = t
+	}
+	x.canonMemo[t] = r
+	return r
+}
+
+func (x *Exec) literal(c *Term) (*Term, bool) {
+	pol := true
+	for c.Op == OpNot {
+		c = c.Args[0]
+		pol = !pol
+	}
+	return x.canon(c), pol
+}
+
+// known reports whether pc syntactically fixes the truth value of c
+func (x *Exec) knownLit(c *Term) (bool, bool) {
+	l, pol := x.literal(c)
+	if v, ok := x.lits[l]; ok {
+		return v == pol, true
+	}
+	return false, false
+}
+
 func (x *Exec) assumeTerm(c *Term) {
 	if c.IsTrue() {
 		return
 	}
+	if v, ok := x.knownLit(c); ok && v {
+		return
+	}
 	x.pc = append(x.pc, c)
+	x.noteLits(c, true)
+}
+
+func (x *Exec) noteLits(c *Term, pol bool) {
+	l, p := x.literal(c)
+	x.lits[l] = p == pol
+	// conjunctions asserted positively (or disjunctions negatively) fix their parts
+	cc := c
+	inner := pol
+	for cc.Op == OpNot {
+		cc = cc.Args[0]
+		inner = !inner
+	}
+	if (cc.Op == OpAnd && inner) || (cc.Op == OpOr && !inner) {
+		for _, a := range cc.Args {
+			x.noteLits(a, inner)
+		}
+	}
 }
 
 // modelSays evaluates c under the cached model (if any)
@@ -107,8 +196,16 @@ func (x *Exec) feasible(c *Term) (bool, Model) {
 	if c.IsFalse() {
 		return false, nil
 	}
+	if m := x.tweakModel(c); m != nil {
+		x.tweaks++
+		return true, m
+	}
 	x.queries++
 	r, m := x.solver.Check(x.pc, c, true)
+	if r == Unknown {
+		r = fallbackCheck(x.pc, c, x.eng.timeout, x.eng.solverKind)
+		m = nil
+	}
 	switch r {
 	case Unsat:
 		return false, nil
@@ -120,9 +217,130 @@ func (x *Exec) feasible(c *Term) (bool, Model) {
 	}
 }
 
+// tweakModel looks for a model of pc ∧ c among small perturbations of the cached model.
+// A concrete satisfying assignment is a sound witness of feasibility; failure means nothing.
+func (x *Exec) tweakModel(c *Term) Model {
+	if x.model == nil {
+		return nil
+	}
+	syms := map[string]Sort{}
+	collectSyms(c, map[*Term]bool{}, syms)
+	if len(syms) == 0 || len(syms) > 4 {
+		return nil
+	}
+	var names []string
+	for n := range syms {
+		names = append(names, n)
+	}
+	sort.Strings(names)
+	var cands []Model
+	with := func(kv ...interface{}) {
+		m := make(Model, len(x.model)+2)
+		for k, v := range x.model {
+			m[k] = v
+		}
+		for i := 0; i < len(kv); i += 2 {
+			m[kv[i].(string)] = kv[i+1].(uint64)
+		}
+		cands = append(cands, m)
+	}
+	consts := map[Sort][]uint64{}
+	var walk func(t *Term)
+	seen := map[*Term]bool{}
+	walk = func(t *Term) {
+		if seen[t] {
+			return
+		}
+		seen[t] = true
+		if t.Op == OpConst && t.S.K != KBool {
+			consts[t.S] = append(consts[t.S], t.Val)
+		}
+		for _, a := range t.Args {
+			walk(a)
+		}
+	}
+	walk(c)
+	for _, n := range names {
+		so := syms[n]
+		cur := x.model[n]
+		switch so.K {
+		case KBool:
+			with(n, 1-cur)
+		case KBV:
+			with(n, (cur+1)&mask(so.W))
+			with(n, (cur-1)&mask(so.W))
+			with(n, uint64(0))
+			for _, k := range consts[so] {
+				with(n, k)
+				with(n, (k+1)&mask(so.W))
+				with(n, (k-1)&mask(so.W))
+			}
+			// constants of other widths (e.g. compared after extension)
+			for cs, ks := range consts {
+				if cs.K == KBV && cs != so {
+					for _, k := range ks {
+						with(n, k&mask(so.W))
+					}
+				}
+			}
+		case KFP:
+			if so.W == 64 {
+				f := math.Float64frombits(cur)
+				with(n, math.Float64bits(math.Nextafter(f, math.Inf(1))))
+				with(n, math.Float64bits(math.Nextafter(f, math.Inf(-1))))
+				with(n, math.Float64bits(f+1))
+				with(n, math.Float64bits(f-1))
+				for _, k := range consts[so] {
+					kf := math.Float64frombits(k)
+					with(n, k)
+					with(n, math.Float64bits(math.Nextafter(kf, math.Inf(1))))
+					with(n, math.Float64bits(math.Nextafter(kf, math.Inf(-1))))
+				}
+			}
+		}
+		for _, o := range names {
+			if o != n && syms[o] == so {
+				with(n, x.model[o])
+				if so.K == KFP && so.W == 64 {
+					of := math.Float64frombits(x.model[o])
+					with(n, math.Float64bits(math.Nextafter(of, math.Inf(1))))
+					with(n, math.Float64bits(math.Nextafter(of, math.Inf(-1))))
+				}
+				if so.K == KBV {
+					with(n, (x.model[o]+1)&mask(so.W))
+					with(n, (x.model[o]-1)&mask(so.W))
+				}
+			}
+		}
+	}
+	if len(names) == 2 && syms[names[0]] == syms[names[1]] {
+		with(names[0], x.model[names[1]], names[1], x.model[names[0]])
+	}
+	for _, m := range cands {
+		memo := map[*Term]uint64{}
+		if evalTerm(c, m, memo) != 1 {
+			continue
+		}
+		ok := true
+		for _, p := range x.pc {
+			if evalTerm(p, m, memo) != 1 {
+				ok = false
+				break
+			}
+		}
+		if ok {
+			return m
+		}
+	}
+	return nil
+}
+
 func (x *Exec) decide(c *Term) bool {
 	if c.IsConst() {
 		return c.Val != 0
+	}
+	if v, ok := x.knownLit(c); ok {
+		return v // implied by the path condition: not a decision point
 	}
 	if x.dpos < len(x.decisions) {
 		d := x.decisions[x.dpos]
@@ -164,7 +382,7 @@ func (x *Exec) decide(c *Term) bool {
 	switch {
 	case feasT && feasF:
 		alt := append(append([]int{}, x.trace...), 0)
-		x.h.push(alt)
+		x.h.push(alt, mF)
 		x.trace = append(x.trace, 1)
 		x.assumeTerm(c)
 		x.model = mT
@@ -229,7 +447,7 @@ func (x *Exec) choose(n int, guards []*Term) int {
 			firstModel = m
 		} else {
 			alt := append(append([]int{}, x.trace...), i)
-			x.h.push(alt)
+			x.h.push(alt, m)
 		}
 	}
 	if first < 0 {
@@ -860,6 +1078,11 @@ func (x *Exec) lookup(c Value, k Value, i *ssa.Lookup) Value {
 	switch m := c.(type) {
 	case *MapVal:
 		vt := i.X.Type().Underlying().(*types.Map).Elem()
+		if m.M != nil {
+			if r, ok := x.mergedLookup(m.M, k, vt, i.CommaOk); ok {
+				return r
+			}
+		}
 		var val Value
 		found := false
 		if m.M != nil {
@@ -878,6 +1101,72 @@ func (x *Exec) lookup(c Value, k Value, i *ssa.Lookup) Value {
 		return x.index(m, k.(*Term), i.Index.Type())
 	}
 	panic(unsupported(fmt.Sprintf("lookup in %T", c)))
+}
+
+// mergedLookup answers a lookup with a symbolic key without forking when the map
+// values are scalars or strings: the result is an ite-chain over the entries.
+func (x *Exec) mergedLookup(m *MapObj, k Value, vt types.Type, commaOk bool) (Value, bool) {
+	if len(m.E) == 0 {
+		return nil, false
+	}
+	eqs := make([]*Term, len(m.E))
+	anySym := false
+	for i, e := range m.E {
+		eqs[i] = x.keyEqual(e.K, k, m.KeyT)
+		if eqs[i].IsTrue() {
+			return nil, false // definite hit: ordinary path is cheap
+		}
+		if !eqs[i].IsConst() {
+			anySym = true
+		}
+	}
+	if !anySym {
+		return nil, false
+	}
+	found := TFalse
+	for _, q := range eqs {
+		found = tOr(found, q)
+	}
+	zero := zeroValue(vt)
+	switch zt := zero.(type) {
+	case *Term:
+		r := zt
+		for i := len(m.E) - 1; i >= 0; i-- {
+			if eqs[i].IsFalse() {
+				continue
+			}
+			r = tIte(eqs[i], m.E[i].V.(*Term), r)
+		}
+		if commaOk {
+			return TupleVal{r, found}, true
+		}
+		return r, true
+	case *StrVal:
+		r := &StrVal{}
+		none := tNot(found)
+		for i, e := range m.E {
+			if eqs[i].IsFalse() {
+				continue
+			}
+			sv := e.V.(*StrVal)
+			if sv.Opaque {
+				return nil, false
+			}
+			// keys are pairwise distinct, so the eqs are mutually exclusive
+			for _, a := range sv.Alts {
+				r.Alts = append(r.Alts, StrAlt{G: tAnd(eqs[i], a.G), S: a.S, Sym: a.Sym})
+			}
+		}
+		r.Alts = append(r.Alts, StrAlt{G: none, S: ""})
+		if len(r.Alts) > 64 {
+			return nil, false
+		}
+		if commaOk {
+			return TupleVal{r, found}, true
+		}
+		return r, true
+	}
+	return nil, false
 }
 
 type iterVal struct {
